@@ -178,7 +178,8 @@ class SimSocket:
             else:
                 f.fired = True
                 sim.fired(f.kind)
-                conn.send_faulted = True        # what the client has put on the stream may end in a torn frame
+                if self._msg_off > 0 or len(conn.c2s) > 0:
+                    conn.send_faulted = True    # part of a frame is on the stream already: a torn frame
                 if f.kind == "send_zero":
                     return 0
                 if f.kind == "send_timeout":
